@@ -294,6 +294,16 @@ inductive Term (α : Type) where
   | rvar (name : String)                   -- Variable(name, Real): never materialised
   | tensor (t : Tensor α)                  -- scalar-output ground tensor
   | binary (op : Nat) (l r : Term α)       -- op index into a table of binary functions
+  | slice (name : String) (start stop step dtype : Nat)   -- Slice(name, start, stop, step, dtype)
+
+/-- Number of points of `Slice(start, stop, step)`: `max(0, (stop + step - 1 - start) // step)`. -/
+def sliceSize (start stop step : Nat) : Nat := (stop + step - 1 - start) / step
+
+/-- What `Slice.eager_subs` returns for an arange index: `start + step * arange(size)` on the
+    slice's own input, with the slice's dtype. -/
+def sliceTensor (ofNat : Nat → α) (name : String) (start stop step dtype : Nat) : Tensor α :=
+  ⟨[(name, sliceSize start stop step)], ⟨[sliceSize start stop step],
+    fun idx => match idx with | [i] => ofNat (start + step * i) | _ => ofNat start⟩, some dtype⟩
 
 /-- `Tensor.new_arange(name, size)`: inputs {name: Bint[size]}, data = arange(size). -/
 def arange (ofNat : Nat → α) (name : String) (size : Nat) : Tensor α :=
@@ -305,6 +315,15 @@ def Term.materialize (ofNat : Nat → α) : Term α → Term α
   | .rvar n => .rvar n
   | .tensor t => .tensor t
   | .binary op l r => .binary op (l.materialize ofNat) (r.materialize ofNat)
+  | .slice n a b c d => .tensor (sliceTensor ofNat n a b c d)
+
+/-- The declared `.inputs` of the lazy term (Binary: lhs inputs updated with rhs inputs). -/
+def Term.inputs : Term α → Inputs
+  | .var n s => [(n, s)]
+  | .rvar _ => []
+  | .tensor t => t.inputs
+  | .binary _ l r => oupdate l.inputs r.inputs
+  | .slice n a b c _ => [(n, sliceSize a b c)]
 
 /-- Textbook meaning: value at a named point. -/
 def Term.denote (ofNat : Nat → α) (ops : Nat → α → α → α) (renv : String → α)
@@ -313,11 +332,13 @@ def Term.denote (ofNat : Nat → α) (ops : Nat → α → α → α) (renv : St
   | .rvar n => renv n
   | .tensor t => t.atEnv env []
   | .binary op l r => ops op (l.denote ofNat ops renv env) (r.denote ofNat ops renv env)
+  | .slice n a _ c _ => ofNat (a + c * env n)
 
 /-- Eager evaluation of a variable-free term (`none`: stays lazy / an alignment failed). -/
 def Term.eval (ops : Nat → α → α → α) : Term α → Option (Tensor α)
   | .var _ _ => none
   | .rvar _ => none
+  | .slice _ _ _ _ _ => none
   | .tensor t => some t
   | .binary op l r =>
     match l.eval ops, r.eval ops with
